@@ -52,7 +52,9 @@ Differences from the threaded model, all taken from asyncio's semantics:
 * no concurrency limit: every submitted task may start (`start j` has no `conc` guard);
 * `cancel()` succeeds on every task that is not done, running or not (`drainCancel`,
   `drainCancelRun`); a running task that was cancelled still has to unwind (`finish`), and the
-  consumer waits for that (`reap`) before it joins the feeder;
+  consumer waits for that (`reap`) before it joins the feeder; when the awaitable is only a future
+  standing for work done elsewhere (server request, executor call) cancelling it does not touch
+  that work (`drainDetach`);
 * the hand-off queue is an `asyncio.Queue` (FIFO, `cap+1` slots).
 
 Assumed (trusted base): `asyncio.Queue` is FIFO and bounded; awaiting a done future returns that
@@ -95,7 +97,7 @@ inductive Act where
   | pull | srcEnd | srcRaise | fcheck | stopSeen | submit | preFail | put | unbound | putEnd | putExc
   | start (j : Nat) | finish (j : Nat)
   | get | yld | raiseItem | next | close | setStop
-  | drainCancel | drainCancelRun | drainSkip | drainMark | drainEmpty | reap | join
+  | drainCancel | drainCancelRun | drainDetach | drainSkip | drainMark | drainEmpty | reap | join
   deriving Repr, DecidableEq
 
 def init : State :=
@@ -201,6 +203,15 @@ def step (c : Cfg) (s : State) : Act → Option State
       match s.queue with
       | .item _ t :: rest =>
         if t ∈ s.running then some { s with queue := rest, creq := t :: s.creq } else none
+      | _ => none
+    else none
+  | .drainDetach =>
+    -- `t.cancel()` on an awaitable that is a plain future standing for work done elsewhere
+    -- (`AsyncServer._enqueue`'s future, `AsyncParmapper`'s `run_in_executor` wrapper): the future is
+    -- cancelled at once, the work behind it is not affected and nobody waits for it
+    if s.cpc = .drain then
+      match s.queue with
+      | .item _ t :: rest => if t ∈ s.pending ∨ t ∈ s.running then some { s with queue := rest } else none
       | _ => none
     else none
   | .drainSkip =>
